@@ -35,10 +35,10 @@ type c18PRef interface {
 
 // c18Sort describes one sort of point registers (one group of the structure).
 type c18Sort struct {
-	name    string
-	ref     c18PRef // nil: no reference model, machines are compared with each other
-	noBase  bool    // Base()/Mul(s,nil) not scheduled (unsupported by at least one machine)
-	canHash bool
+	name     string
+	ref      c18PRef // nil: no reference model, machines are compared with each other
+	noBase   bool    // Base()/Mul(s,nil) not scheduled (unsupported by at least one machine)
+	canHash  bool
 	canEmbed bool // Pick(stream) / Embed(data, stream) on a seeded stream are scheduled (all machines support them)
 	// ext returns a valid canonical external encoding of an element of this sort and its class; nil if unavailable.
 	ext func(rng *gen.Rng) (enc []byte, class string)
